@@ -57,11 +57,18 @@ func (inst *InstAlloca) String() string {
 
 // Type returns the type of the instruction.
 func (inst *InstAlloca) Type() types.Type {
-	// Cache type if not present (or computed before the address space was
-	// set).
-	if inst.Typ == nil || inst.Typ.AddrSpace != inst.AddrSpace {
+	// Cache type if not present.
+	if inst.Typ == nil {
 		inst.Typ = types.NewPointer(inst.ElemType)
 		inst.Typ.AddrSpace = inst.AddrSpace
+	}
+	if inst.Typ.AddrSpace != inst.AddrSpace {
+		// The type was cached before the address space was set. The cache is
+		// not rewritten here, as other goroutines may be printing (and thus
+		// reading it) at the same time; the type is computed afresh instead.
+		typ := types.NewPointer(inst.ElemType)
+		typ.AddrSpace = inst.AddrSpace
+		return typ
 	}
 	return inst.Typ
 }
